@@ -229,6 +229,8 @@ class Gen:
         if r.random() < 0.04:
             ty = r.choice(T_ANY)  # deliberately ill-typed now and then
         vars_ = [i + 1 for i, t in enumerate(env) if t == ty]
+        if vars_ and r.random() < 0.3:
+            return {"var": r.choice(vars_)}
         if depth <= 0 or r.random() < 0.15:
             return {"var": r.choice(vars_)} if vars_ and r.random() < 0.6 else {"con": self.const(ty)}
         k = r.random()
@@ -340,21 +342,40 @@ def db(t, env=()):
     return {"error": None}
 
 
-def check_paths_against_native(term_json, sym_args, paths, lang="v3", models_per_path=2, tally=None, label=""):
+def _another_model(conjuncts, sym_args, prev):
+    """a model of the conjuncts, preferably far from the previous one (integers of the other sign, longer byte strings)"""
+    wish = []
+    for a in sym_args:
+        if prev is not None and a.ty == "integer" and not isinstance(a.v, int):
+            wish.append(a.v < 0 if prev.eval(a.v, model_completion=True).as_long() >= 0 else a.v > 0)
+        elif prev is not None and a.ty == "bytestring" and not isinstance(a.v, bytes):
+            wish.append(z3.Length(a.v) >= 2)
+    for extra in ([wish, []] if wish else [[]]):
+        s = z3.SimpleSolver()
+        s.set("timeout", 20000)
+        s.add(*conjuncts)
+        s.add(*extra)
+        if s.check() == z3.sat:
+            return s.model()
+    return None
+
+
+def check_paths_against_native(term_json, sym_args, paths, lang="v3", models_per_path=2, tally=None, label="", strict_class=True):
     """For every path: solve its condition, concretise the symbolic arguments under the model, run `term args` natively and
     compare with the path's outcome under that model.  Returns a Tally (ok/bad/skipped + notes)."""
     t = tally or Tally("symbolic")
     for pi, p in enumerate(paths):
-        s = z3.Solver()
-        s.set("timeout", 20000)
-        s.add(*p.pc)
+        blocks, prev = [], None
         for mi in range(models_per_path):
             lab = f"{label} path {pi} model {mi}"
-            if s.check() != z3.sat:
-                if mi == 0:
-                    t.add("bad" if not (p.approx or p.uninterp) else "skip", lab, "path condition has no model")
-                break
-            m = s.model()
+            m = p.model if mi == 0 else None
+            if m is None:
+                m = _another_model(p.pc + blocks, sym_args, prev)
+                if m is None:
+                    if mi == 0:
+                        t.add("bad" if not (p.approx or p.uninterp) else "skip", lab, "path condition has no model")
+                    break
+            prev = m
             try:
                 args = [V.value_to_json(m, a) for a in sym_args]
             except V.NotConcrete as ex:
@@ -364,11 +385,11 @@ def check_paths_against_native(term_json, sym_args, paths, lang="v3", models_per
             for a in args:
                 full = {"app": [full, a]}
             st, msg, cn = compare_outcome(native_eval(full, lang), p, m, lang)
-            if st == "ok" and cn:  # hand-written programs: the error class must agree as well
+            if st == "ok" and cn and strict_class:  # hand-written programs: the error class must agree as well
                 st, msg = "bad", cn
-            t.add(st, lab, msg + (f" ARGS {args}" if st == "bad" else ""))
+            t.add(st, lab, msg + (f" ARGS {args} TERM {term_json}" if st == "bad" else ""))
             block = [V.values_equal(a, parse_term(j)[1]) for a, j in zip(sym_args, args)]
-            s.add(z3.Not(z3.And(*block)) if block else z3.BoolVal(False))
+            blocks.append(z3.Not(z3.And(*block)) if block else z3.BoolVal(False))
     return t
 
 
@@ -379,17 +400,13 @@ def symbolic_programs():
     length = A(zcomb, L("self", L("l", ("force", A(B("chooseList"), Vr("l"), ("delay", I_(0)),
                                                   ("delay", A(B("addInteger"), I_(1), A(Vr("self"), A(B("tailList"), Vr("l"))))))))))
     sumlist = A(zcomb, L("self", L("l", ("case", Vr("l"), [L("h", L("t", A(B("addInteger"), A(B("unIData"), Vr("h")), A(Vr("self"), Vr("t"))))), I_(0)]))))
-    d, e, n, k, b, c, l, pl = (V.sym_data("d"), V.sym_data("e"), V.sym_int("n"), V.sym_int("k"), V.sym_bytes("b"), V.sym_bool("c"),
-                               V.sym_datalist("l"), V.sym_pairlist("pl"))
+    d, e, n, k, b, c, l, pl, b2 = (V.sym_data("d"), V.sym_data("e"), V.sym_int("n"), V.sym_int("k"), V.sym_bytes("b"), V.sym_bool("c"),
+                                   V.sym_datalist("l"), V.sym_pairlist("pl"), V.sym_bytes("b2"))
     small = [n.v >= -6, n.v <= 6, k.v >= -3, k.v <= 3]
     progs = [
         ("ite-unIData", L("d", A(B("ifThenElse"), A(B("equalsInteger"), A(B("unIData"), Vr("d")), I_(1)), I_(10), I_(20))), [d], [V.bounded_data(d.v, 2, 2)]),
         ("z-length", length, [l], [V.bounded_datalist(l.v, 1, 3)]),
         ("case-sum", sumlist, [l], [V.bounded_datalist(l.v, 1, 3)]),
-        ("div", L("a", L("b", A(B("divideInteger"), Vr("a"), Vr("b")))), [n, k], small),
-        ("mod", L("a", L("b", A(B("modInteger"), Vr("a"), Vr("b")))), [n, k], small + [n.v < 0]),
-        ("quot", L("a", L("b", A(B("quotientInteger"), Vr("a"), Vr("b")))), [n, k], small + [n.v < 0, k.v != 1]),
-        ("rem", L("a", L("b", A(B("remainderInteger"), Vr("a"), Vr("b")))), [n, k], small + [k.v < 0]),
         ("divmod-mix", L("a", L("b", A(B("addInteger"), A(B("multiplyInteger"), A(B("quotientInteger"), Vr("a"), Vr("b")), Vr("b")),
                                       A(B("modInteger"), Vr("a"), Vr("b"))))), [n, k], small + [n.v < 0, k.v < 0]),
         ("constr-fields", L("d", A(B("headList"), A(B("tailList"), A(B("sndPair"), A(B("unConstrData"), Vr("d")))))), [d], [V.bounded_data(d.v, 2, 3)]),
@@ -404,6 +421,12 @@ def symbolic_programs():
         ("bytes-index", L("b", L("i", A(B("indexByteString"), Vr("b"), Vr("i")))), [b, n], [z3.Length(b.v) <= 3] + small),
         ("bytes-slice", L("b", L("i", L("j", A(B("appendByteString"), A(B("sliceByteString"), Vr("i"), Vr("j"), Vr("b")), ("bs", b"\x01"))))), [b, n, k],
          [z3.Length(b.v) <= 4] + small),
+        ("bytes-slice-neg", L("b", L("i", L("j", A(B("sliceByteString"), Vr("i"), Vr("j"), Vr("b"))))), [b, n, k], [z3.Length(b.v) >= 2, z3.Length(b.v) <= 4, n.v < 0, n.v > -4, k.v > 0, k.v < 4]),
+        ("nullList", L("l", ite(A(B("nullList"), Vr("l")), I_(1), A(B("unIData"), A(B("headList"), Vr("l"))))), [l], [V.bounded_datalist(l.v, 0, 2)]),
+        ("chooseList", L("l", A(B("chooseList"), Vr("l"), I_(1), I_(2))), [l], [V.bounded_datalist(l.v, 0, 2)]),
+        ("bytes-append", L("b", L("c", A(B("appendByteString"), Vr("b"), Vr("c")))), [b, b2], [z3.Length(b.v) == 2, z3.Length(b2.v) == 1, b.v[0] != b2.v[0]]),
+        ("int-order", L("a", L("b", ite(A(B("lessThanInteger"), Vr("a"), Vr("b")), A(B("subtractInteger"), Vr("a"), Vr("b")),
+                                       ite(A(B("lessThanEqualsInteger"), Vr("a"), Vr("b")), I_(0), A(B("multiplyInteger"), Vr("a"), A(B("addInteger"), Vr("b"), I_(1))))))), [n, k], small),
         ("bytes-cons", L("b", L("i", ite(A(B("lessThanInteger"), A(B("lengthOfByteString"), Vr("b")), I_(2)), A(B("consByteString"), Vr("i"), Vr("b")), Vr("b")))), [b, n],
          [z3.Length(b.v) <= 3, n.v >= -2, n.v <= 300]),
         ("bytes-eq", L("b", ite(A(B("equalsByteString"), Vr("b"), ("bs", b"ab")), A(B("bData"), Vr("b")), A(B("iData"), A(B("lengthOfByteString"), Vr("b"))))), [b],
@@ -415,6 +438,10 @@ def symbolic_programs():
         ("droplist", L("l", A(B("headList"), A(B("dropList"), I_(2), Vr("l")))), [l], [V.bounded_datalist(l.v, 0, 3)]),
         ("closure-result", L("d", L("c", ite(Vr("c"), L("z", A(B("addInteger"), Vr("z"), A(B("unIData"), Vr("d")))), ("delay", Vr("d"))))), [d, c], [V.bounded_data(d.v, 0, 0)]),
     ]
+    for op in ("divideInteger", "modInteger", "quotientInteger", "remainderInteger"):  # every sign combination, inexact division
+        for sa, sb in ((1, 1), (1, -1), (-1, 1), (-1, -1)):
+            progs.append((f"{op}{sa:+d}{sb:+d}", L("a", L("b", A(B(op), Vr("a"), Vr("b")))), [n, k],
+                          [n.v * sa > 0, n.v * sa < 20, k.v * sb >= 0, k.v * sb < 6, z3.Or(k.v == 0, n.v % k.v != 0)]))
     return [(name, db(t), args, assume) for name, t, args, assume in progs]
 
 
@@ -433,7 +460,7 @@ def run_symbolic():
         rep = equivalent(paths, paths, args=args)
         if len(rep) or rep.undecided and not any(p.uninterp for p in paths):
             t.add("bad", name, f"self-equivalence: {list(rep)[:2]} undecided {rep.undecided[:2]}")
-        s = z3.Solver()
+        s = z3.SimpleSolver()
         s.add(*assume)
         s.add(z3.Not(z3.Or(*[z3.And(*p.pc) if p.pc else z3.BoolVal(True) for p in paths])))
         if s.check() != z3.unsat:
@@ -441,17 +468,75 @@ def run_symbolic():
     return t, info
 
 
+def run_symbolic_random(n, seed, t):
+    """random programs over lambda-bound *symbolic* arguments; every path is replayed natively under a model"""
+    g = Gen(random.Random(seed + 1000))
+    mk = {"int": V.sym_int, "bytes": V.sym_bytes, "bool": V.sym_bool, "data": V.sym_data, "ldata": V.sym_datalist}
+    npaths = 0
+    for i in range(n):
+        tys = [g.r.choice(list(mk)) for _ in range(g.r.randrange(1, 4))]
+        args = [mk[ty](f"x{k}") for k, ty in enumerate(tys)]
+        assume = []
+        for a in args:
+            assume += {"integer": lambda v: [v >= -300, v <= 300], "bytestring": lambda v: [z3.Length(v) <= 3], "bool": lambda v: [],
+                       "data": lambda v: [V.bounded_data(v, 2, 2)]}.get(a.ty, lambda v: [V.bounded_datalist(v, 1, 2)])(a.v)
+        body = g.term(g.r.choice(T_ANY), g.r.randrange(2, 5), tys[::-1])
+        tj = body
+        for _ in tys:
+            tj = {"lam": tj}
+        try:
+            paths = Machine(max_paths=40, max_steps=5000).run(parse_term(tj), args, assume)
+        except Exception as ex:  # noqa: BLE001
+            t.add("bad", f"symrandom #{i}", f"exception {type(ex).__name__}: {ex} on {tj}")
+            continue
+        npaths += len(paths)
+        check_paths_against_native(tj, args, paths, models_per_path=2, tally=t, label=f"symrandom #{i}", strict_class=False)
+    return npaths
+
+
+AIKEN_SRC = """
+pub type Shape { Circle(Int) Rect { w: Int, h: Int } }
+pub fn area(s: Shape) -> Int { when s is { Circle(r) -> 3 * r * r  Rect { w, h } -> w * h } }
+pub fn sum(xs: List<Int>) -> Int { when xs is { [] -> 0  [x, ..rest] -> x + sum(rest) } }
+pub fn clamp(x: Int, lo: Int, hi: Int) -> Int { if x < lo { lo } else if x > hi { hi } else { x } }
+pub fn lookup(xs: Pairs<ByteArray, Int>, k: ByteArray) -> Option<Int> {
+  when xs is { [] -> None  [Pair(a, b), ..rest] -> if a == k { Some(b) } else { lookup(rest, k) } } }
+"""
+
+
+def run_aiken(t):
+    """end-to-end use: compile with the real compiler (drv-lang), run the pre- and post-optimisation programs on symbolic
+    Data arguments, replay every path natively, and compare pre with post (differences are printed, not counted)."""
+    r = D.get("drv-lang").call("compile", src=AIKEN_SRC, tracing="silent")
+    for f in r["Ok"]["functions"]:
+        args = [V.sym_data(f"a{i}") for i in range(len(f["params"]))]
+        assume = [V.bounded_data(a.v, 2, 3) for a in args]
+        paths = {}
+        for which in ("pre", "post"):
+            tj = f[which]["term"]
+            paths[which] = Machine().run(parse_term(tj), args, assume)
+            check_paths_against_native(tj, args, paths[which], models_per_path=1, tally=t, label=f"aiken {f['name']} {which}")
+        rep = equivalent(paths["pre"], paths["post"], args=args)
+        print(f"aiken {f['name']}: paths pre={len(paths['pre'])} post={len(paths['post'])} pairs={rep.pairs} agreed={rep.agreed} "
+              f"disagreements={len(rep)} undecided={len(rep.undecided)}" + (f"  e.g. {rep[0]['outcomes']} on {rep[0]['args']}" if rep else ""))
+
+
 def main():
     ap = argparse.ArgumentParser()
     ap.add_argument("--limit", type=int, default=None, help="only the first N conformance files")
     ap.add_argument("--seed", type=int, default=1)
     ap.add_argument("--random", type=int, default=200)
+    ap.add_argument("--symrandom", type=int, default=60, help="number of random programs over symbolic arguments")
+    ap.add_argument("--aiken", action="store_true", help="also compile a small Aiken module (drv-lang) and validate its programs")
     ap.add_argument("-v", "--verbose", action="store_true")
     a = ap.parse_args()
     t0 = time.time()
     c = run_conformance(a.limit)
     r = run_random(a.random, a.seed)
     s, info = run_symbolic()
+    info.append(f"symbolic random programs: {run_symbolic_random(a.symrandom, a.seed, s)} paths")
+    if a.aiken:
+        run_aiken(s)
     for t in (c, r, s):
         for n in t.notes:
             if a.verbose or n.startswith("BAD"):
